@@ -36,9 +36,9 @@ func newKey(seed int64) (*ecdsaKey, error) {
 
 // recorder translates what the scripted Agglayer receives / what the node stores into trace events (names, no judgement).
 type recorder struct {
-	tw       *tr.W
-	w        *world
-	n        *node
+	tw   *tr.W
+	w    *world
+	n    *node
 	sent []int
 }
 
